@@ -662,9 +662,10 @@ with cstmt (G : benv) (s : stmt) {struct s} : list bid :=
   | SExpr e => cexpr G e
   | SLog e => cexpr G e
   | SVar _ x e => bref G x ++ cexpr G e
-  | SLet _ _ e => cexpr G e
-  | SConst _ _ e => cexpr G e
-  | SFunDecl _ _ pb x body =>
+  | SLet _ x e => bref G x ++ cexpr G e
+  | SConst _ x e => bref G x ++ cexpr G e
+  | SFunDecl _ f pb x body =>
+      bref G f ++
       cstmt (bpush_decls (block_decls body) (bpush_vars (var_decls (Some x) body) ((x, (pb, false)) :: bcross G))) body
   | SBlock a => cstmt (bpush_decls (block_decls a) G) a
   | SIf e a b => cexpr G e ++ cstmt G a ++ cstmt G b
